@@ -10,6 +10,7 @@ import (
 	"fmt"
 	"strings"
 	"testing"
+	"time"
 
 	"pgregory.net/rapid"
 )
@@ -24,14 +25,35 @@ type c12Txn struct {
 }
 
 func TestC12(t *testing.T) {
-	V.Rule("lab: rapid state machines over 2-8 simultaneous client connections to one TCP listener, all from one loopback address (one address of the process's private block stands in for 127.0.0.1), each request announcing a Via sent-by drawn from a set of 1-3 values that are shared between connections (equal sent-by on different connections is the common case), with or without rport, pairwise distinct branches that share a stem and end in a small running number (one is often a prefix of another), listen entries with received-support on and off; requests go to UDP and TCP backends; the backends answer outstanding transactions in any order across connections, 1xx (0-3 per transaction) before the single final response, INVITE and non-INVITE; unrelated UDP traffic and new connections in between. Oracle: every response is read on the connection whose request it answers and on no other connection; nothing is dialled to the announced sent-by address or to (client address, sent-by port), where the harness listens. non-trivial = history with >= 2 connections sharing a sent-by and >= 2 transactions open at once answered in another order than sent; distinct by history")
-	V.Require("a branch is a prefix of another branch of the history", "connections share a sent-by", ">=2 transactions open at once", "answered out of order", "provisional before final", "non-INVITE with provisional", "support:off", "support:on", "tcp backend", "udp backend")
+	V.Rule("lab: rapid state machines over 2-8 simultaneous client connections to one TCP listener, all from one loopback address (one address of the process's private block stands in for 127.0.0.1), each request announcing a Via sent-by drawn from a set of 1-3 values that are shared between connections (equal sent-by on different connections is the common case), with or without rport, pairwise distinct branches that share a stem and end in a small running number (one is often a prefix of another), listen entries with received-support on and off; requests go to UDP and TCP backends; the backends answer outstanding transactions in any order across connections, 1xx (0-3 per transaction) before the single final response, INVITE and non-INVITE; unrelated UDP traffic and new connections in between; now and then a sent-by that names the real source port of another live connection, and once per history up to 160 complete transactions on the connections while others stay pending; on a separate instance a user agent connection and the connection to a TCP backend carry a provisional response, stay idle for 5.3 s (thorough 7.5 s) and must then still carry the final response. Oracle: every response is read on the connection whose request it answers and on no other connection; nothing is dialled to the announced sent-by address or to (client address, sent-by port), where the harness listens. non-trivial = history with >= 2 connections sharing a sent-by and >= 2 transactions open at once answered in another order than sent; distinct by history")
+	V.Require(">= 70 transactions completed while others stayed pending", "sent-by names the source port of another live connection", "response after a connection stayed idle for > 5 s", "a branch is a prefix of another branch of the history", "connections share a sent-by", ">=2 transactions open at once", "answered out of order", "provisional before final", "non-INVITE with provisional", "support:off", "support:on", "tcp backend", "udp backend")
 	s, err := newStdSvc(stdVariant{NoReceived: [3]string{"", "true", ""}})
 	if err != nil {
 		V.HarnessError(t, "cannot start lab instance: %v", err)
 	}
 	clientIP := s.ip(10)
 
+	// meanwhile, on an instance of its own: connections that stay idle for longer
+	// than any plausible I/O timeout (judged after the histories)
+	idleDone := make(chan string, 1)
+	if V.replay && V.only == "" {
+		idleDone <- ""
+	} else {
+		go func() { idleDone <- c12Idle(time.Duration(V.N(5300, 7500)) * time.Millisecond) }()
+	}
+	defer func() {
+		f, _ := patientRecv(idleDone, 60*time.Second)
+		V.Eval()
+		V.Class("response after a connection stayed idle for > 5 s")
+		V.NonTrivial("idle")
+		if strings.HasPrefix(f, "harness:") {
+			V.HarnessError(t, "%s", f)
+		} else if f != "" {
+			V.Violation(t, "", nil, "%s", f)
+		}
+	}()
+
+	totalBursts := 0
 	rcheck(t, "histories", V.N(250, 2500), func(rt *rapid.T) {
 		entry := rapid.IntRange(0, 1).Draw(rt, "listen entry")
 		l := s.in.cfg.Listens[entry]
@@ -59,6 +81,7 @@ func TestC12(t *testing.T) {
 		var outstanding []*c12Txn
 		hist := []string{fmt.Sprintf("listen entry %d (received-support %v)", entry, stamp)}
 		maxOpen, outOfOrder, shared := 0, false, false
+		bursts := 0
 		branchStem := s.nextID("b")
 		usedBranch := map[int]bool{}
 		V.ClassIf(stamp, "support:on")
@@ -93,6 +116,16 @@ func TestC12(t *testing.T) {
 					}
 				}
 				tx.SentBy = sentBys[rapid.IntRange(0, len(sentBys)-1).Draw(rt, "sentby")]
+				if len(conns) >= 2 && rapid.IntRange(0, 5).Draw(rt, "sent-by is the real address of another connection") == 0 {
+					// (a client behind the same address whose Via happens to name the port
+					// another live connection really comes from)
+					o := rapid.IntRange(0, len(conns)-1).Draw(rt, "whose")
+					if o == ci {
+						o = (o + 1) % len(conns)
+					}
+					tx.SentBy = conns[o].local
+					V.Class("sent-by names the source port of another live connection")
+				}
 				if connSentBy[ci] == nil {
 					connSentBy[ci] = map[string]bool{}
 				}
@@ -191,6 +224,68 @@ func TestC12(t *testing.T) {
 					outstanding = append(outstanding[:k], outstanding[k+1:]...)
 				}
 			},
+			"manyOtherTransactions": func(rt *rapid.T) {
+				if bursts >= 1 || totalBursts >= V.N(12, 150) || len(outstanding) == 0 || rapid.IntRange(0, 3).Draw(rt, "really") != 0 {
+					rt.Skip("one burst per history, and only while something is pending")
+				}
+				bursts++
+				totalBursts++
+				// 70-160 complete transactions on the other connections while the
+				// outstanding ones stay open: whatever the proxy keeps per transaction
+				// must not push the pending ones out
+				n := rapid.IntRange(70, 160).Draw(rt, "transactions")
+				hist = append(hist, fmt.Sprintf("%d complete transactions on the connections while %d stay pending", n, len(outstanding)))
+				V.Journal(t.Name()+"/histories", hist)
+				for i := 0; i < n; i++ {
+					ci := i % len(conns)
+					c := conns[ci]
+					id := s.nextID("m")
+					wire := []byte(fmt.Sprintf("OPTIONS sip:svc.test SIP/2.0\r\nVia: SIP/2.0/TCP %s;branch=z9hG4bK%s\r\nFrom: <sip:c%d@client.example>;tag=f%s\r\nTo: <sip:svc@nomatch.example>\r\nCall-ID: c12-%s\r\nCSeq: 1 OPTIONS\r\nContent-Length: 0\r\n\r\n", sentBys[0], id, ci, id, id))
+					sb, _ := splitHostPort(sentBys[0])
+					s.model.learnRequest(s.model.transport(entry, "tcp"), clientIP, &AMsg{IsReq: true, Hdrs: []AHdr{{Kind: hVia, Vias: []AVia{{Host: sb}}}}})
+					s.in.expect(wire)
+					if err := c.send(wire); err != nil {
+						V.HarnessError(rt, "send: %v", err)
+					}
+					rs, err := s.in.settle(c.send, 1)
+					if _, lost := err.(labLost); lost {
+						failf(rt, "%v\nhistory: %v", err, hist)
+					} else if err != nil {
+						V.HarnessError(rt, "%v", err)
+					}
+					got := labMessages(rs)
+					if len(got) != 1 || !s.isBackendOf(got[0].ep, entry, got[0].tcp != nil) {
+						failf(rt, "request %d of the burst must reach exactly one backend; receptions:\n%shistory: %v", i+1, labDescribe(got), hist)
+					}
+					resp := buildResponse(got[0].msg, 200, "OK", "t", "")
+					var send func([]byte) error
+					if got[0].tcp != nil {
+						send = got[0].tcp.send
+					} else {
+						pv, err := rVia(got[0].msg.Entries(hVia)[0])
+						if err != nil {
+							failf(rt, "top Via at the backend unreadable: %v", err)
+						}
+						ep := got[0].ep
+						send = func(b []byte) error { return ep.sendUDP(pv.Host, pv.Port, b) }
+					}
+					s.in.expect(resp)
+					if err := send(resp); err != nil {
+						V.HarnessError(rt, "backend send: %v", err)
+					}
+					rs, err = s.in.settle(send, 1)
+					if _, lost := err.(labLost); lost {
+						failf(rt, "%v\nhistory: %v", err, hist)
+					} else if err != nil {
+						V.HarnessError(rt, "%v", err)
+					}
+					back := labMessages(rs)
+					if len(back) != 1 || back[0].tcp != c {
+						failf(rt, "the response to request %d of the burst must be written to connection c%d; receptions:\n%shistory: %v", i+1, ci, labDescribe(back), hist)
+					}
+				}
+				V.Class(">= 70 transactions completed while others stayed pending")
+			},
 			"unrelatedUdpTraffic": func(rt *rapid.T) {
 				ua := s.uas[1+rapid.IntRange(0, 2).Draw(rt, "ua")]
 				id := s.nextID("u")
@@ -218,4 +313,93 @@ func TestC12(t *testing.T) {
 		}
 		V.SampleEvery(25, func() any { return hist })
 	})
+}
+
+// c12Idle: on an instance of its own (so that it can run beside the histories):
+// INVITEs over one client connection until one transaction sits at a UDP
+// backend and one at the TCP backend; both backends answer 180; nothing
+// happens for the given time; both answer 200. Every response must arrive on
+// the client's connection. Returns "" or the failure ("harness: ..." for
+// infrastructure trouble). No evidence calls: it runs on its own goroutine.
+func c12Idle(idle time.Duration) string {
+	s, err := newStdSvc(stdVariant{})
+	if err != nil {
+		return "harness: cannot start lab instance: " + err.Error()
+	}
+	l := s.in.cfg.Listens[0]
+	clientIP := s.ip(10)
+	c, err := s.in.hub.dialTCP("idle-client", clientIP, l.Addr, l.TCPPort)
+	if err != nil {
+		return "harness: dial: " + err.Error()
+	}
+	defer c.close()
+	var atUDP, atTCP *labRx
+	for i := 0; i < 8 && (atUDP == nil || atTCP == nil); i++ {
+		id := s.nextID("idle")
+		wire := []byte(fmt.Sprintf("INVITE sip:svc.test SIP/2.0\r\nVia: SIP/2.0/TCP %s:5060;branch=z9hG4bK%s\r\nFrom: <sip:c@client.example>;tag=f%s\r\nTo: <sip:svc@nomatch.example>\r\nCall-ID: c12-%s\r\nCSeq: 1 INVITE\r\nContent-Length: 0\r\n\r\n", clientIP, id, id, id))
+		s.in.expect(wire)
+		if err := c.send(wire); err != nil {
+			return "harness: send: " + err.Error()
+		}
+		rs, err := s.in.settle(c.send, 1)
+		if err != nil {
+			return fmt.Sprintf("idle scenario: %v", err)
+		}
+		got := labMessages(rs)
+		if len(got) != 1 || !s.isBackendOf(got[0].ep, 0, got[0].tcp != nil) {
+			return fmt.Sprintf("idle scenario: INVITE %d must reach exactly one backend; receptions:\n%s", i+1, labDescribe(got))
+		}
+		r := got[0]
+		if r.tcp != nil && atTCP == nil {
+			atTCP = &r
+		} else if r.tcp == nil && atUDP == nil {
+			atUDP = &r
+		}
+	}
+	if atUDP == nil || atTCP == nil {
+		return "harness: idle scenario: the rotation did not reach both a UDP and the TCP backend within 8 requests"
+	}
+	answer := func(at *labRx, code int, what string) string {
+		resp := buildResponse(at.msg, code, "Answer", "t", "")
+		var send func([]byte) error
+		if at.tcp != nil {
+			send = at.tcp.send
+		} else {
+			pv, err := rVia(at.msg.Entries(hVia)[0])
+			if err != nil {
+				return "idle scenario: top Via at the backend unreadable"
+			}
+			ep := at.ep
+			send = func(b []byte) error { return ep.sendUDP(pv.Host, pv.Port, b) }
+		}
+		s.in.expect(resp)
+		if err := send(resp); err != nil {
+			return fmt.Sprintf("%s: the backend could not write its %d on the connection the request came over: %v (the proxy closed a healthy connection)", what, code, err)
+		}
+		rs, err := s.in.settle(send, 1)
+		if err != nil {
+			if strings.Contains(err.Error(), "could not send the barrier") {
+				return fmt.Sprintf("%s: after the %d the backend's connection from the proxy no longer takes data: %v (the proxy closed a healthy connection)", what, code, err)
+			}
+			return fmt.Sprintf("%s: %v", what, err)
+		}
+		got := labMessages(rs)
+		if len(got) != 1 || got[0].tcp != c {
+			return fmt.Sprintf("%s: the %d must be written to the client's connection (%s), the one the request used, and nowhere else; receptions:\n%s", what, code, c, labDescribe(got))
+		}
+		return ""
+	}
+	for _, at := range []*labRx{atUDP, atTCP} {
+		if f := answer(at, 180, "idle scenario, before the pause"); f != "" {
+			return f
+		}
+	}
+	time.Sleep(idle)
+	what := fmt.Sprintf("idle scenario, after %v without traffic on the client's connection and on the connection to the TCP backend", idle)
+	for _, at := range []*labRx{atTCP, atUDP} {
+		if f := answer(at, 200, what); f != "" {
+			return f
+		}
+	}
+	return ""
 }
